@@ -260,7 +260,7 @@ def run_bash(ctx, frags, locale="C.UTF-8"):
 def rand_shell_fragment(rng):
     """a random string of the fragment of shell syntax the bash model covers (and a bit outside)"""
     def bare():
-        return b"".join(rng.choice([b"a", b"b", b"~", b"#", b"=", b"%", b"+", b"!", b"-", b".", b"/", b",", b":", b"@", b"^",
+        return b"".join(rng.choice([b"a", b"b", b"~", b"#", b"=", b"%", b"+", b"!", b"-", b".", b"/", b",", b":", b"@", b"^", b"=~", b":~", b"a#",
                                     "\u017c".encode(), "\u00a0".encode(), "\U0001F600".encode(), b"_", b"0"])
                         for _ in range(1 + rng.below(3)))
 
@@ -307,7 +307,7 @@ def run(ctx):
     impl_sp, mod_sp = both(model, ["sp"])
     special = [bytes([b]) for b in unfield(impl_sp[0])] if all(x < 128 for x in unfield(impl_sp[0])) else []
     ctx.count()
-    if impl_sp != mod_sp:
+    if sorted(unfield(impl_sp[0])) != sorted(unfield(mod_sp[0])):      # a set: the order of the array is irrelevant
         ctx.pending = True
         core.log("SPECIAL_CHARS differ: impl %s model %s" % (impl_sp[0], mod_sp[0]))
 
@@ -458,7 +458,7 @@ def run(ctx):
     # random strings of the modelled fragment: bash model vs real bash
     if lines is None:
         r3 = ctx.rng.fork()
-        frags = [rand_shell_fragment(r3) for _ in range(ctx.pick(3000, 60000))]
+        frags = [rand_shell_fragment(r3) for _ in range(ctx.pick(12000, 60000))]
         mb = core.run_lines_parallel(model, ["b " + field(f) for f in frags])
         got = run_bash(ctx, frags, "C.UTF-8")
         nb = 0
